@@ -205,6 +205,10 @@ func compileOpts(op Op20) []compose.GraphCompileOption {
 	if op.Mode == "dag" {
 		opts = append(opts, compose.WithNodeTriggerMode(compose.AllPredecessor))
 	}
+	if op.Mode == "any" {
+		// the default mode of a Graph, spelled out: fine for a Graph, an invalid option for a Chain or a Workflow
+		opts = append(opts, compose.WithNodeTriggerMode(compose.AnyPredecessor))
+	}
 	if op.Max > 0 {
 		opts = append(opts, compose.WithMaxRunSteps(op.Max))
 	}
@@ -620,7 +624,7 @@ func runChain20(c CaseC20) *result20 {
 				if stages == 0 {
 					viol("empty chain")
 				}
-				if op.Mode == "dag" {
+				if op.Mode != "" {
 					viol("node trigger mode on a chain")
 				}
 				if cur == "M" {
@@ -847,7 +851,7 @@ func runWorkflow20(c CaseC20) *result20 {
 				if !hasExit {
 					viol("no exit edge")
 				}
-				if op.Mode == "dag" {
+				if op.Mode != "" {
 					viol("node trigger mode on a workflow")
 				}
 				if op.Max > 0 {
@@ -1075,8 +1079,11 @@ func genC20(t *rapid.T) CaseC20 {
 	}
 	compile := func() Op20 {
 		op := Op20{K: "compile"}
-		if rapid.IntRange(0, 3).Draw(t, "dag") == 0 {
+		switch rapid.IntRange(0, 7).Draw(t, "dag") {
+		case 0, 1:
 			op.Mode = "dag"
+		case 2:
+			op.Mode = "any"
 		}
 		if rapid.IntRange(0, 4).Draw(t, "max") == 0 {
 			op.Max = rapid.IntRange(1, 30).Draw(t, "maxV")
